@@ -11,7 +11,13 @@ package tableschk
 // the monitor), cross-checked by the row model when every operation is a plain insert/update/delete;
 // any other status ⇒ the database equals the template state. Always: no lock left, descriptor count back
 // to its pre-request value, row writes followed by exactly one commit or rollback.
-// Fault space: for every position of a sequence every applicable failure variant (enumerated, not sampled).
+// Fault space: for every position of a sequence every applicable failure variant (enumerated, not sampled); plus two more
+// dimensions of a script: (1) error conditions that evaluate WITHOUT error to every kind of value (true, false, numbers,
+// strings, nil, symbols holding text / numbers / a boolean / an array / a row value read by a select task), placed after an
+// operation of the same script that has already written; (2) every accepted spelling of a task (sql text with a defaulted
+// operation, upper/title-case opcodes, upper-case field names, extra unknown fields), mixed with explicit tasks. The
+// reference state is always computed from what the tasks MEAN (canonical spelling, one request each), so a task that is
+// validated but not executed shows as "200 but not all applied".
 
 import (
 	"database/sql"
@@ -49,6 +55,9 @@ type c17Case struct {
 	Ops     []c17Op `json:"ops"`
 	Variant string  `json:"variant"` // "base" or the failure variant
 	Pos     int     `json:"pos"`     // position the variant was applied to (-1 = none)
+	// Body, when set, is the request body as it is SPELLED (defaulted opcode, other letter case, extra fields);
+	// Ops is always what the script MEANS, in the canonical spelling, and is what the reference state is computed from.
+	Body string `json:"body,omitempty"`
 }
 
 func cloneOps(ops []c17Op) []c17Op {
@@ -264,6 +273,98 @@ func c17Variants(ops []c17Op, i int, restrictedUser bool, full bool) map[string]
 	return out
 }
 
+// ---------------------------------------------------------------- error conditions that evaluate, without error, to every kind of value
+
+// c17CondValues: name -> condition (filter syntax, as the errors field takes it). The symbols are set by the prefix below.
+var c17CondValues = [][2]string{
+	{"true", "true"}, {"false", "false"}, {"int0", "0"}, {"int1", "1"}, {"float", "2.5"}, {"empty-string", `""`}, {"string-true", `"true"`}, {"string-false", `"false"`},
+	{"string-text", `"arbitrary text"`}, {"nil", "nil"}, {"sym-text", "c_txt"}, {"sym-num", "c_num"}, {"sym-zero", "c_zero"}, {"sym-bool", "c_true"}, {"row-value", "name"}, {"sym-array", "c_arr"},
+}
+
+// c17CondValueVariants puts each such condition on ops[i], after a prefix that has already WRITTEN (the transaction owns the
+// write lock when the condition is evaluated) and that defines the symbols: text, numbers, a boolean, an array, and a row
+// value read by a select task.
+func c17CondValueVariants(ops []c17Op, i int) (names []string, out map[string][]c17Op) {
+	out = map[string][]c17Op{}
+
+	prefix := []c17Op{
+		{Operation: "insert", Table: "t", Data: map[string]any{"id": 4990, "name": "w", "grp": "written-first", "score": 0.5, "flag": false, "uq": 204990}},
+		{Operation: "symbols", Data: map[string]any{"c_txt": "some text", "c_num": 7, "c_zero": 0, "c_true": true, "c_arr": []any{1, 2, 3}}},
+		{Operation: "select", Table: "t", Filters: []string{"EQ(id,1)"}, Columns: []string{"name"}},
+	}
+
+	for _, cv := range c17CondValues {
+		c := append(cloneOps(prefix), cloneOps(ops)...)
+		c[i+len(prefix)].Errors = []c17Err{{Condition: cv[1], Status: 409, Message: "condition value " + cv[0]}}
+		name := "cond-value:" + cv[0]
+		out[name] = c
+		names = append(names, name)
+	}
+
+	return names, out
+}
+
+// ---------------------------------------------------------------- task spellings
+
+// c17Spell renders a script in one of the spellings the handler accepts. ok=false when the mode does not apply.
+func c17Spell(ops []c17Op, mode string) (string, bool) {
+	var tasks []map[string]any
+
+	b, _ := json.Marshal(ops)
+	if err := json.Unmarshal(b, &tasks); err != nil {
+		return "", false
+	}
+
+	applied := false
+
+	for n, tk := range tasks {
+		switch mode {
+		case "opcode-upper":
+			tk["operation"] = strings.ToUpper(fmt.Sprint(tk["operation"]))
+			applied = true
+		case "opcode-title":
+			o := fmt.Sprint(tk["operation"])
+			tk["operation"] = strings.ToUpper(o[:1]) + o[1:]
+			applied = true
+		case "keys-upper":
+			up := map[string]any{}
+			for k, v := range tk {
+				up[strings.ToUpper(k)] = v
+			}
+
+			tasks[n] = up
+			applied = true
+		case "unknown-fields":
+			// names a caller might expect to work; the decoder ignores what it does not know, the task means what its real fields say
+			tk["tables"], tk["values"], tk["filter"], tk["opcode"], tk["column"] = "secret", map[string]any{"grp": "zzz"}, "EQ(id,1)", "drop", "sval"
+			applied = true
+		case "sql-defaulted":
+			// only the SQL text, no operation: documented as "treat it as a sql operation"
+			if tk["operation"] == "sql" {
+				delete(tk, "operation")
+
+				applied = true
+			}
+		}
+	}
+
+	out, _ := json.Marshal(tasks)
+
+	return string(out), applied
+}
+
+var c17SpellModes = []string{"opcode-upper", "opcode-title", "keys-upper", "unknown-fields"}
+
+// c17WithDefaultedSQL inserts a writing sql task at position at; it is spelled without an operation.
+func c17WithDefaultedSQL(ops []c17Op, at int) ([]c17Op, string) {
+	c := cloneOps(ops)
+	task := c17Op{Operation: "sql", SQL: fmt.Sprintf("UPDATE other SET note='defaulted-sql-%d' WHERE id=1", at)}
+	c = append(c[:at], append([]c17Op{task}, c[at:]...)...)
+	body, _ := c17Spell(c, "sql-defaulted")
+
+	return c, body
+}
+
 // ---------------------------------------------------------------- state comparison
 
 // canonState: per table the multiset of rows (without SQLite rowid; _row_id_ values that did not exist in the
@@ -352,7 +453,8 @@ func TestC17(t *testing.T) {
 	r := vh.New("C17", "atomic")
 	r.Rule = "sequences of 1-6 operations over insert/update/delete/select/readrows/symbols/drop/sql (symbols and select results used by later operations), each sent once as it is and once per (position, failure variant): " +
 		"operation fails (unknown table, unknown column, uncoercible value, unique violation, malformed filter, quote-edged filter, emptyError, unknown symbol, invalid or forbidden SQL, forbidden table), " +
-		"error condition true / false / malformed / failing at evaluation. Every request starts from the same template state. Distinct = distinct request body + user/DSN; all are non-trivial except single-operation symbol sets."
+		"error condition true / false / malformed / failing at evaluation; error conditions evaluating to each kind of value (booleans, numbers, strings, nil, symbols holding text/number/boolean/array/row value) after an earlier task has written; " +
+		"every accepted spelling of the tasks (defaulted sql operation, letter case of opcodes and field names, unknown extra fields). Every request starts from the same template state. Distinct = distinct request body + user/DSN; all are non-trivial except single-operation symbol sets."
 	r.Assume("SQLite only; the replay that produces the 'all applied' state goes through the same operation handlers, one operation per request, on a copy of the template (it shares their SQL generation, not their transaction handling)")
 	r.Assume("descriptor count is taken from /proc/self/fd after the handler returned; the monitor's own checker connection is open before and after")
 
@@ -665,6 +767,10 @@ func TestC17(t *testing.T) {
 		e.DrainSQLLog()
 
 		body, _ := json.Marshal(c.Ops)
+		if c.Body != "" {
+			body = []byte(c.Body)
+		}
+
 		resp := e.Do(c.User, "POST", "/dsns/"+c.DSN+"/tables/@transaction", body)
 
 		hooksEv := hookDrain()
@@ -803,6 +909,36 @@ func TestC17(t *testing.T) {
 		}
 	}
 
+	// the two further dimensions of a script: what an error condition evaluates to, and how its tasks are spelled
+	runCondValues := func(user, dsn string, ops []c17Op, i int) {
+		names, vs := c17CondValueVariants(ops, i)
+		for _, n := range names {
+			runCase(&c17Case{User: user, DSN: dsn, Ops: vs[n], Variant: n, Pos: i + 3})
+			r.Count("cases.condition-values", 1)
+		}
+	}
+
+	runSpellings := func(user, dsn string, ops []c17Op, sqlAt []int) {
+		for _, mode := range c17SpellModes {
+			if body, ok := c17Spell(ops, mode); ok {
+				runCase(&c17Case{User: user, DSN: dsn, Ops: ops, Variant: "spelling:" + mode, Pos: -1, Body: body})
+				r.Count("cases.spellings", 1)
+			}
+		}
+
+		// the script's own sql tasks without their operation
+		if body, ok := c17Spell(ops, "sql-defaulted"); ok {
+			runCase(&c17Case{User: user, DSN: dsn, Ops: ops, Variant: "spelling:sql-defaulted", Pos: -1, Body: body})
+			r.Count("cases.spellings", 1)
+		}
+
+		for _, at := range sqlAt {
+			c, body := c17WithDefaultedSQL(ops, at)
+			runCase(&c17Case{User: user, DSN: dsn, Ops: c, Variant: "spelling:sql-defaulted", Pos: at, Body: body})
+			r.Count("cases.spellings", 1)
+		}
+	}
+
 	// ---- directed probe: the minimal case of each failure exit on a two-operation transaction (always run)
 	probe := []c17Op{
 		{Operation: "insert", Table: "t", Data: map[string]any{"id": 4001, "name": "p", "grp": "g", "score": 1.5, "flag": true, "uq": 204001}},
@@ -826,7 +962,11 @@ func TestC17(t *testing.T) {
 				runCase(&c17Case{User: "admin", DSN: "d_open", Ops: vs[n], Variant: n, Pos: i})
 				r.Count("probe.cases", 1)
 			}
+
+			runCondValues("admin", "d_open", probe, i)
 		}
+
+		runSpellings("admin", "d_open", probe, []int{0, 1, 2})
 	}
 
 	for k := range known {
@@ -865,7 +1005,22 @@ func TestC17(t *testing.T) {
 
 				runCase(&c17Case{User: user, DSN: dsn, Ops: vs[n], Variant: n, Pos: i})
 			}
+
+			// condition values: every position in the thorough tier, one (rotating) position per sequence in the quick tier
+			if vh.Tier() == "thorough" || i == s%len(ops) {
+				runCondValues(user, dsn, ops, i)
+			}
 		}
+
+		sqlAt := []int{s % (len(ops) + 1)}
+		if vh.Tier() == "thorough" {
+			sqlAt = nil
+			for at := 0; at <= len(ops); at++ {
+				sqlAt = append(sqlAt, at)
+			}
+		}
+
+		runSpellings(user, dsn, ops, sqlAt)
 	}
 
 	_ = e.Restore()
